@@ -58,6 +58,7 @@ Result(X, r, req) ==
          [] r.op = "release"    -> DoReleaseLock(X, r.key, r.c)
          [] r.op = "connect"    -> DoConnected(X, r.c, r.proto, r.addr)
          [] r.op = "disconnect" -> DoDisconnected(X, r.c)
+         [] r.op = "restart"    -> DoRestart(X, r.layout)
 
 (***************************************************************************)
 (* Reference layer                                                         *)
@@ -168,6 +169,21 @@ RefLeave(X, k, c) ==
          [X EXCEPT !.lockq[k].q = SelectSeq(@, LAMBDA x : x # c),
                    !.lk = @ \cup {<<q, "cancelled">> : q \in g},
                    !.pending = RestrictF(@, DOMAIN @ \ g)]
+
+\* reference effect of a restart through the JSON persistence (C09): every user key
+\* with its value, kind and version, nothing under $SYS, registrations applied
+RefRestart(X, r) ==
+  LET user == {k \in DOMAIN X.ref : k[1] # SYS}
+      regs(leaf) == {k \in DOMAIN X.ref : Len(k) = 4 /\ k[1] = SYS /\ k[2] = CLIENTS /\ k[4] = leaf
+                                           /\ X.ref[k].v \in DOMAIN Meaning}
+      gg == ConcatSeqs({Meaning[X.ref[k].v].gg : k \in regs(GG)})
+      lw == ConcatSeqs({Meaning[X.ref[k].v].lw : k \in regs(LW)})
+      E0 == [ref |-> RestrictF(X.ref, user), ev |-> EmptyF, subs |-> {}]
+      e1 == IF r.layout = "v1" THEN E0 ELSE RefBury(E0, gg, INT)
+      e2 == IF r.layout = "v1" THEN e1 ELSE RefWill(e1, lw, INT)
+  IN [R |-> [InitR EXCEPT !.ref = e2.ref, !.nacq = X.nacq],
+      exp |-> [NoExp EXCEPT !.rep = Ok,
+                            !.lk = {<<q, "cancelled">> : q \in DOMAIN X.pending}]]
 
 (***************************************************************************)
 (* RefStep: new reference state and expectation for request r that the     *)
@@ -297,6 +313,7 @@ RefStep(X, r, o) ==
                   e3 == RefPut(e2, ClientKey(r.c, "address"), PlainE(r.addr))
               IN [R |-> [X EXCEPT !.clients = cl, !.ref = e3.ref],
                   exp |-> [NoExp EXCEPT !.rep = Ok, !.ev = e3.ev]]
+    [] r.op = "restart" -> RefRestart(X, r)
     [] r.op = "disconnect" ->
          LET c  == r.c
              ggk == ClientKey(c, GG)
